@@ -206,13 +206,32 @@ func structToMap(data any, visiting map[uintptr]bool) map[string]any {
 		fieldValue := fv.Interface()
 
 		// Recursively convert nested structs
-		if fv.Kind() == reflect.Struct || (fv.Kind() == reflect.Ptr && fv.Type().Elem().Kind() == reflect.Struct) {
+		if hasExportedFields(fv.Type()) {
 			fieldValue = structToMap(fieldValue, visiting)
 		}
 
 		result[tagName] = fieldValue
 	}
 	return result
+}
+
+// hasExportedFields reports whether t is a struct type, or a pointer to one, with at
+// least one exported field. Only such a value is turned into a map of its fields: a
+// struct that exports nothing (time.Time, big.Int, ...) would become an empty map,
+// and the value that prints and formats itself would be lost.
+func hasExportedFields(t reflect.Type) bool {
+	if t.Kind() == reflect.Ptr {
+		t = t.Elem()
+	}
+	if t.Kind() != reflect.Struct {
+		return false
+	}
+	for i := range t.NumField() {
+		if t.Field(i).IsExported() {
+			return true
+		}
+	}
+	return false
 }
 
 // PopulateStructFields adds exported struct fields to the map using JSON tags.
@@ -257,7 +276,7 @@ func PopulateStructFields(m map[string]any, data any) {
 		fieldValue := fv.Interface()
 
 		// Convert nested structs to maps so they can be accessed with JSON tag paths
-		if fv.Kind() == reflect.Struct || (fv.Kind() == reflect.Ptr && fv.Type().Elem().Kind() == reflect.Struct) {
+		if hasExportedFields(fv.Type()) {
 			fieldValue = StructToMap(fieldValue)
 		}
 
